@@ -73,7 +73,7 @@ t = ['## 8. Seeded changes: which check catches which\n',
      'changes came in four rounds (one per property in the first three, ten properties in the fourth), each round told what the earlier '
      'ones had changed so that it would look elsewhere; `tools/recheck_seeds.sh` re-applies every stored change to a scratch worktree '
      'and runs the quick check of its property (developer mode `VERIF_ALT_REPO`), and all of them are reported by the checks as they '
-     'stand now (last run: `seeded/RECHECK.txt`, 69 of 69). What the misses had in common, and what was done about each kind: a public entry point the harness never called '
+     'stand now (last run: `docs/seeds_recheck.txt`, 69 of 69). What the misses had in common, and what was done about each kind: a public entry point the harness never called '
      '(typed single-object writers, `from_value`, `write_avro_datum_ref`, `parse_str_with_list`, `Reader::into_deser_iter`, the '
      '`Writer` methods beside `append_value_ref`, deserialization into targets that ignore fields) - section 2 lists what is driven now; '
      'a boundary the generators never hit (lengths of 64 and 65535 bytes, 1024 items, 64 symbols, block sizes after growth, compression '
